@@ -205,7 +205,7 @@ theorem builtinEvalProc_pv (ep : ExtProc ext) (ecl : ExtCodeLawsV ext) (ci : CIn
   rw [p3, p4] at q2
   have hpg : plainGlob e = true := hblk 1 p2 _ _ (by omega) (by omega) q2
   simp only [concreteOps] at h4
-  obtain ⟨r1, r2, r3⟩ := ep.compile _ _ _ _ p.hp (deref_valPB p.hp hpg hne) h4
+  obtain ⟨r1, r2, r3⟩ := ep.compile _ _ _ _ p.hp (LF.of_cinv ci) (deref_valPB p.hp hpg hne) h4
   have lf' : LF h' := LF.of_cinv (ecl.compileEval ci h4).1
   have sm3 : SM h' (st2.push (.argc 0)) s.stack.sp := (sm2.heap r2).push rfl
   exact ⟨r1, lf', r2, r2.neB p.acc, SM.of_stk sm3.stk, r3⟩
@@ -230,7 +230,7 @@ theorem builtinGeneric_pv {id : Nat} (ep : ExtProc ext) (ecl : ExtCodeLawsV ext)
     rw [p4] at i3
     exact ⟨hblk argc p2 i x (by omega) (by omega) i3, hnes x hx⟩
   simp only [concreteOps] at h4
-  obtain ⟨r1, r2, r3⟩ := ep.eval _ _ _ _ _ p.hp hargs h4
+  obtain ⟨r1, r2, r3⟩ := ep.eval _ _ _ _ _ p.hp (LF.of_cinv ci) hargs h4
   have lf' : LF h' := LF.of_cinv (ecl.builtinEval ci h4).1
   have sm3 : SM h' st2 s.stack.sp := sm2.heap r2
   exact ⟨r1, lf', r2, r2.neB p.acc, SM.of_stk sm3.stk, r3⟩
